@@ -415,8 +415,62 @@ func init() {
 		}
 	}
 
+	// ---- sync/atomic.Value: one slot of type any, accessed atomically (the real one goes through
+	// unsafe pointer pairs; the nil / inconsistent-type panics of Store are kept) ----
+	avSlot := func(r *Run, v Value) (*Agg, slotKey) {
+		p := v.(Ptr)
+		if p.A == nil {
+			r.nilDeref("atomic.Value")
+		}
+		a := r.rd(p.A)[p.I].(*Agg)
+		return a, slotKey{a, 0}
+	}
+	avOp := func(kind string) Intrinsic {
+		return func(r *Run, _ *frame, fn *ssa.Function, args []Value) Value {
+			a, key := avSlot(r, args[0])
+			r.yield("atomic.Value." + kind)
+			r.hbAcquire(key)
+			defer r.hbRelease(key)
+			old, _ := r.rd(a)[0].(Iface)
+			checkNew := func(nv Iface) {
+				if nv.T == nil {
+					panic(r.fault("sync/atomic: store of nil value into Value", "atomic.Value"))
+				}
+				if old.T != nil && !types.Identical(old.T, nv.T) {
+					panic(r.fault("sync/atomic: store of inconsistently typed value into Value", "atomic.Value"))
+				}
+			}
+			switch kind {
+			case "Load":
+				return old
+			case "Store":
+				nv := args[1].(Iface)
+				checkNew(nv)
+				r.wr(a)[0] = nv
+				return nil
+			case "Swap":
+				nv := args[1].(Iface)
+				checkNew(nv)
+				r.wr(a)[0] = nv
+				return old
+			case "CompareAndSwap":
+				nv := args[2].(Iface)
+				checkNew(nv)
+				if r.branch(r.valueEq(old, args[1])) {
+					r.wr(a)[0] = nv
+					return smt.True
+				}
+				return smt.False
+			}
+			return nil
+		}
+	}
+	for _, k := range []string{"Load", "Store", "Swap", "CompareAndSwap"} {
+		reg("(*sync/atomic.Value)."+k, avOp(k))
+	}
+
 	// ---- time ----
-	reg("time.Now", func(r *Run, _ *frame, _ *ssa.Function, args []Value) Value { return r.timeNow() })
+	reg("time.Now",func(r *Run, _ *frame, _ *ssa.Function, args []Value) Value { return r.timeNow() })
 	reg("time.Sleep", func(r *Run, _ *frame, _ *ssa.Function, args []Value) Value {
 		r.yield("time.Sleep")
 		return nil
